@@ -21,6 +21,7 @@ Fixpoint gty_eqb (a b : gty) {struct a} : bool :=
          | _, _ => false
          end) fs gs
   | GIface, GIface => true
+  | GIfaceN a, GIfaceN b => Bool.eqb a b
   | _, _ => false
   end.
 
